@@ -638,7 +638,22 @@ impl<'a> LiveEvents<'a> {
         };
 
         let raw = match ev {
-            Ev::Scalar { value, style, .. } => Event::Scalar(Cow::Borrowed(value), *style, 0, None),
+            Ev::Scalar {
+                value,
+                style,
+                raw_tag,
+                ..
+            } => {
+                // The enforcer only asks whether the scalar carries a tag: a tagged `<<` is an
+                // ordinary key and must not be counted as a merge key when it is replayed either.
+                let tag = raw_tag.as_ref().map(|_| {
+                    Cow::Owned(saphyr_parser::Tag {
+                        handle: String::from("!"),
+                        suffix: String::new(),
+                    })
+                });
+                Event::Scalar(Cow::Borrowed(value), *style, 0, tag)
+            }
             Ev::SeqStart { .. } => Event::SequenceStart(0, None),
             Ev::SeqEnd { .. } => Event::SequenceEnd,
             Ev::MapStart { .. } => Event::MappingStart(0, None),
